@@ -183,6 +183,7 @@ def run_check(prop, tier, verif_seed, workers=None, n_override=None, repo=None, 
         if res.get("nontrivial"):
             stats["nontrivial_hashes"].add(eng.canonical(res.get("doc") or doc))
         if res.get("violations"):
+            res["job_doc"] = doc
             stats["viol"].append(res)
 
     with Pool(workers, repo=repo) as pool:
@@ -257,8 +258,15 @@ def run_check(prop, tier, verif_seed, workers=None, n_override=None, repo=None, 
                 small, execs = shrink(pool, eng, res["doc"], vclass, max_exec=spec.get("shrink_exec", 300), max_wall=spec.get("shrink_wall", 120.0))
                 rr = pool.run_one({"id": 0, "engine": eng.NAME, "func": "execute", "doc": small, "wall_cap": 120})
                 if "harness_error" in rr or vclass not in violation_classes(rr):
-                    small = res["doc"]
-                    rr = pool.run_one({"id": 0, "engine": eng.NAME, "func": "execute", "doc": small, "wall_cap": 120})
+                    # fall back to the completed document, then to the document exactly as it was
+                    # submitted (identical bytes -> identical child, object addresses included)
+                    for cand in (res["doc"], res.get("job_doc")):
+                        if cand is None or "sweep" in cand or "orders" in cand:
+                            continue
+                        small = cand
+                        rr = pool.run_one({"id": 0, "engine": eng.NAME, "func": "execute", "doc": small, "wall_cap": 120})
+                        if "harness_error" not in rr and vclass in violation_classes(rr):
+                            break
                     if "harness_error" in rr or vclass not in violation_classes(rr):
                         stats["harness_errors"].append((small.get("idx"), "violation %s did not reproduce in a fresh child" % vclass, ""))
                         continue
